@@ -20,7 +20,7 @@ func main() {
 	prop := flag.String("prop", "", "property id")
 	tier := flag.String("tier", "", "quick|thorough")
 	flag.Parse()
-	checks := map[string]func(){"C01": c01, "C02": c02, "C03": c03, "C19": c19, "C04": c04, "C05": c05, "C14": c14, "C13": c13}
+	checks := map[string]func(){"C01": c01, "C02": c02, "C03": c03, "C19": c19, "C04": c04, "C05": c05, "C14": c14, "C13": c13, "C06": c06, "C07": c07}
 	fn, ok := checks[*prop]
 	if !ok {
 		fmt.Fprintln(os.Stderr, "unknown property", *prop)
